@@ -11,6 +11,8 @@ for d in sorted(os.listdir(os.path.join(VERIF, 'seeded'))):
     sd = os.path.join(VERIF, 'seeded', d)
     mp = os.path.join(sd, 'meta.json')
     m = json.load(open(mp))
+    if m.get('obsolete'):
+        rows.append((d, '-', 'OBSOLETE (no longer breaks the property on the repaired tree)')); print(rows[-1], flush=True); continue
     props = m.get('checked_properties') or [m['property']]
     tmp = tempfile.mkdtemp(prefix='vf_seedre_')
     try:
